@@ -483,6 +483,9 @@ class AccessMixin:
             r = self.field_read(v, attr)
             if r is not None:
                 return r
+            cc = self.engine.index.class_constants(v.ty.args[0].name)
+            if cc and attr in cc:
+                return self.engine.pyvalue(cc[attr])      # class-level constant read through the instance
             return BoundMethod(v, attr)
         if is_str(v) or isinstance(v, (Cell, tuple)):
             return BoundMethod(v, attr)
